@@ -566,7 +566,7 @@ fn pool_worker_loop(pool: Arc<ThreadPool>, timeout: Option<Duration>) {
                     .task_wakeup
                     .wait_timeout(records, time_to_deadline)
                     .unwrap();
-                if wait_result.timed_out() {
+                if wait_result.timed_out() && records.queue.is_empty() {
                     records.available_workers -= 1;
                     return;
                 } else {
